@@ -683,3 +683,22 @@ Proof.
   exists (k + 1). unfold Machine.run. change (compile (procs O) p) with (finish fin).
   eapply steps_err_run; eassumption.
 Qed.
+
+Lemma run_from_any_err {Q} : forall (O : ops Q) (C : @compiled Q) m s e, run_from O C m s = Err e ->
+  forall m', run_from O C m' s = Fuel \/ run_from O C m' s = Err e.
+Proof.
+  induction m; simpl; intros s e H m'; [discriminate|].
+  destruct m'; simpl; [left; reflexivity|].
+  destruct (Machine.step O C s); try discriminate; auto.
+Qed.
+
+Theorem no_panic_after_err {Q} : forall (O : ops Q) (p : program Q) n e,
+  (forall spec v, exists s, fmt_spec O spec v = Ok s) ->
+  compile_ok (compile (procs O) p) = true ->
+  run_checked_nostruct O n p = Err e ->
+  forall m, Machine.run O (compile (procs O) p) m = Fuel
+            \/ Machine.run O (compile (procs O) p) m = Err e.
+Proof.
+  intros O p n e Hf Hok H m. destruct (compile_errors O p n e Hf Hok H) as [m0 Hm0].
+  unfold Machine.run in *. eapply run_from_any_err. exact Hm0.
+Qed.
